@@ -20,6 +20,7 @@ import (
 	"sort"
 
 	"github.com/XiaoMi/Gaea/util/hack"
+	"github.com/shopspring/decimal"
 )
 
 const (
@@ -143,6 +144,10 @@ func cmpValue(v1 interface{}, v2 interface{}) int {
 		} else {
 			return 0
 		}
+	case decimal.Decimal:
+		// DECIMAL columns and SUM() are parsed into decimal.Decimal by RowData.ParseText
+		s := v2.(decimal.Decimal)
+		return v.Cmp(s)
 	default:
 		//can not go here
 		panic(fmt.Sprintf("invalid type %T", v))
